@@ -421,3 +421,187 @@ Proof.
   - unfold runnable. rewrite Pq. reflexivity.
   - exact (Nd _ Hb).
 Qed.
+
+
+(** * the scan *)
+Lemma barrier_scan_app F : forall a seen b,
+  barrier_scan F seen (a ++ b) = barrier_scan F seen a && barrier_scan F (rev a ++ seen) b.
+Proof.
+  induction a as [|o a IH]; intros seen b; cbn [app barrier_scan rev]; auto.
+  rewrite IH, <- app_assoc. cbn [app]. rewrite andb_assoc. reflexivity.
+Qed.
+
+Lemma barrier_scan_all F : forall os seen,
+  (forall a o b, os = a ++ o :: b -> barrier_check F (rev a ++ seen) o = true) -> barrier_scan F seen os = true.
+Proof.
+  induction os as [|o os IH]; intros seen H; cbn [barrier_scan]; auto.
+  apply andb_true_iff. split; [apply (H [] o os eq_refl)|].
+  apply IH. intros a o' b E. specialize (H (o :: a) o' b). cbn [rev app] in H. rewrite <- app_assoc in H.
+  apply H. rewrite E. reflexivity.
+Qed.
+
+Lemma starts_in r os : In r (starts os) <-> exists cn, In (OStart r cn) os.
+Proof.
+  unfold starts. rewrite in_flat_map. split.
+  - intros (o & Ho & Hr). destruct o; cbn in Hr; try tauto. destruct Hr as [<-|[]]. eauto.
+  - intros (cn & H). exists (OStart r cn). split; auto. left; auto.
+Qed.
+
+Lemma starts_rev r os : In r (starts (rev os)) <-> In r (starts os).
+Proof. rewrite !starts_in. split; intros (cn & H); exists cn; [apply in_rev; auto|apply in_rev in H; auto]. Qed.
+
+(* the tokens already started have a task that is past the semaphore *)
+Definition started_ok (s : state) (seen : list obs) : Prop :=
+  forall r, In r (starts seen) ->
+    exists k t, nth_error (tasks s) k = Some t /\ t_params t = r /\ t_st t <> TSkip /\ t_st t <> TAtAcquire /\
+                t_st t <> TWaiting.
+
+Lemma past_le t t' : task_le t t' -> t_st t <> TSkip -> t_st t <> TAtAcquire -> t_st t <> TWaiting ->
+  t_st t' <> TSkip /\ t_st t' <> TAtAcquire /\ t_st t' <> TWaiting.
+Proof.
+  intros [_ _ _ _ _ _ _ _ (Rk & Sk & _)] N1 N2 N3.
+  repeat split; intros E; rewrite E in *; cbn in *.
+  - apply N1, Sk; auto.
+  - destruct (t_st t); cbn in Rk; try lia; congruence.
+  - destruct (t_st t); cbn in Rk; try lia; congruence.
+Qed.
+
+Lemma started_step c s l s1 os seen : reach c s -> step s l = Some (s1, os) -> started_ok s seen ->
+  started_ok s1 (rev os ++ seen).
+Proof.
+  intros R H Inv r Hr. pose proof (reach_reachf _ _ R) as Rf.
+  unfold starts in Hr. rewrite flat_map_app in Hr. apply in_app_or in Hr as [Hr|Hr].
+  - apply (proj1 (starts_rev _ _)) in Hr. apply (proj1 (starts_in _ _)) in Hr as (cn & Ho).
+    destruct (c01_start_origin _ _ _ _ _ _ _ R H Ho) as (k & t & t' & E & E' & Ep & _ & _ & St' & _).
+    destruct (step_task_le _ _ _ _ _ _ _ Rf H E) as (t2 & E2 & Le). rewrite E' in E2. injection E2 as <-.
+    exists k, t'. destruct Le. rewrite St'. repeat split; try congruence.
+  - destruct (Inv _ Hr) as (k & t & E & Ep & N1 & N2 & N3).
+    destruct (step_task_le _ _ _ _ _ _ _ Rf H E) as (t' & E' & Le).
+    exists k, t'. destruct (past_le _ _ Le N1 N2 N3) as (M1 & M2 & M3). destruct Le. repeat split; auto; congruence.
+Qed.
+
+(** * one window *)
+Lemma window_barrier c s l s1 os seen F0 rest :
+  reach c s -> step s l = Some (s1, os) -> emb (groups s) F0 -> started_ok s seen ->
+  NoDup (gparams ((F0 ++ label_groups l) ++ rest)) ->
+  barrier_scan ((F0 ++ label_groups l) ++ rest) seen os = true.
+Proof.
+  intros R H E Inv N. set (F := (F0 ++ label_groups l) ++ rest) in *.
+  pose proof (reach_reachf _ _ R) as Rf.
+  assert (R1 : reach c s1) by (eapply reach_step; eauto).
+  assert (E0 : emb (groups s) F) by (unfold F; rewrite <- app_assoc; apply emb_weaken; auto).
+  assert (E1 : emb (groups s1) F) by (unfold F; apply emb_weaken; eapply step_emb; eauto).
+  destruct (step_acct _ _ _ _ _ Rf H) as [Sh _].
+  apply barrier_scan_all. intros a o b Eo.
+  assert (Ho : In o os) by (rewrite Eo; apply in_or_app; right; left; auto).
+  (* the task the observation is about: in the state before the window it is not done, and if the observation
+     is a handler entry it is in its handler after the window *)
+  assert (Core : forall q, (exists cn, o = OStart q cn) \/ (exists cn, o = OGate q cn) ->
+            tok_is_note q F = true -> forall r, In r (starts (rev a ++ seen)) -> ~ tok_idx q F < tok_idx r F).
+  { intros q Hq Hn r Hr Lt.
+    assert (Tq : exists kq tq, nth_error (tasks s) kq = Some tq /\ t_params tq = q /\ t_pre tq = None /\
+                   (forall bo, t_st tq <> TDone bo) /\
+                   ((exists cn, o = OGate q cn) \/
+                    exists tq', nth_error (tasks s1) kq = Some tq' /\ t_params tq' = q /\ t_pre tq' = None /\
+                                t_st tq' = TRunning)).
+    { destruct Hq as [(cn & ->)|(cn & ->)].
+      - destruct (c01_start_origin _ _ _ _ _ _ _ R H Ho) as (k & t & t' & Et & Et' & Ep & _ & Rk & St' & Pr & _).
+        exists k, t. repeat split; auto.
+        + intros bo Eb. rewrite Eb in Rk. cbn in Rk. lia.
+        + right. exists t'. destruct (step_task_le _ _ _ _ _ _ _ Rf H Et) as (t2 & E2 & Le).
+          rewrite Et' in E2. injection E2 as <-. destruct Le. repeat split; auto; congruence.
+      - destruct l; cbn in Sh; try (exfalso; rewrite Eo, gates_app in Sh; cbn in Sh;
+                                    apply app_eq_nil in Sh as [_ Sh]; discriminate).
+        destruct Sh as (c0 & extra & Eos & Qe).
+        assert (Eq : q = params).
+        { rewrite Eos in Ho. destruct Ho as [Ho|Ho]; [congruence|].
+          rewrite Forall_forall in Qe. destruct (Qe _ Ho). }
+        subst q. destruct (c01_gate_window _ _ _ _ _ H) as (k & t & Et & St & Ep & _).
+        exists k, t. repeat split; auto.
+        + pose proof (reachf_inv _ _ Rf) as I. destruct (i_pre _ I _ _ Et) as [P _].
+          destruct (t_pre t) as [e|]; auto. rewrite (P _ eq_refl) in St. discriminate.
+        + intros bo Eb. congruence.
+        + left. eauto. }
+    destruct Tq as (kq & tq & Etq & Epq & Prq & Ndq & After).
+    unfold starts in Hr. rewrite flat_map_app in Hr. apply in_app_or in Hr as [Hr|Hr].
+    - (* r started earlier in this window: both are in their handlers after it *)
+      apply (proj1 (starts_rev _ _)) in Hr. apply (proj1 (starts_in _ _)) in Hr as (cr & Hr).
+      assert (Hor : In (OStart r cr) os) by (rewrite Eo; apply in_or_app; left; auto).
+      destruct After as [(cn & ->)|(tq' & Etq' & Epq' & Prq' & Stq')].
+      + (* a handler return is the first observation of its window *)
+        destruct l; cbn in Sh; try (rewrite Eo, gates_app in Sh; cbn in Sh;
+                                    apply app_eq_nil in Sh as [_ Sh]; discriminate).
+        destruct Sh as (c0 & extra & Eos & Qe). rewrite Eos in Hor. destruct Hor as [Hor|Hor]; [discriminate|].
+        rewrite Forall_forall in Qe. destruct (Qe _ Hor).
+      + destruct (c01_start_origin _ _ _ _ _ _ _ R H Hor) as (k & t & t' & Et & Et' & Ep & _ & _ & St' & _).
+        destruct (step_task_le _ _ _ _ _ _ _ Rf H Et) as (t2 & E2 & Le). rewrite Et' in E2. injection E2 as <-.
+        assert (Ep' : t_params t' = r) by (destruct Le; congruence).
+        apply (barrier_core c s1 F kq tq' k t' R1 E1 N Etq' Et'); rewrite ?Epq', ?Ep'; auto; try congruence.
+    - destruct (Inv _ Hr) as (k & t & Et & Ep & N1 & N2 & N3).
+      apply (barrier_core c s F kq tq k t R E0 N Etq Et); rewrite ?Epq, ?Ep; auto. }
+  destruct o; cbn [barrier_check]; auto.
+  - destruct (tok_is_note params F) eqn:Hn; cbn [negb orb]; auto.
+    apply forallb_forall. intros r Hr. apply negb_true_iff, Nat.ltb_ge.
+    assert (~ tok_idx params F < tok_idx r F) by (eapply Core; eauto). lia.
+  - destruct (tok_is_note params F) eqn:Hn; cbn [negb orb]; auto.
+    apply forallb_forall. intros r Hr. apply negb_true_iff, Nat.ltb_ge.
+    assert (~ tok_idx params F < tok_idx r F) by (eapply Core; eauto). lia.
+Qed.
+
+(** * whole runs *)
+Lemma barrier_run c : forall tr s s' oss seen F0, reach c s -> emb (groups s) F0 -> started_ok s seen ->
+  run s tr = Some (s', oss) -> NoDup (gparams (F0 ++ flat_map label_groups tr)) ->
+  barrier_scan (F0 ++ flat_map label_groups tr) seen (concat oss) = true.
+Proof.
+  induction tr as [|l r IH]; cbn [run]; intros s s' oss seen F0 R E Inv H N.
+  - injection H as <- <-. reflexivity.
+  - destruct (step s l) as [[s1 os]|] eqn:Es; [|discriminate].
+    destruct (run s1 r) as [[s2 oss2]|] eqn:E2; [|discriminate]. injection H as <- <-.
+    cbn [concat flat_map] in *. rewrite app_assoc in *. rewrite barrier_scan_app. apply andb_true_iff. split.
+    + eapply window_barrier; eauto.
+    + apply (IH s1 s2 oss2 (rev os ++ seen) (F0 ++ label_groups l)); auto.
+      * eapply reach_step; eauto.
+      * apply (step_emb c s l s1 os F0 (reach_reachf _ _ R) Es E).
+      * eapply started_step; eauto.
+Qed.
+
+Theorem mon_barrier_sound c tr s oss : run (init_of c) tr = Some (s, oss) ->
+  unique_params (env_of tr) = true -> mon_barrier (env_of tr) (concat oss) = true.
+Proof.
+  intros H U. unfold mon_barrier. rewrite fed_groups_env.
+  apply (barrier_run c tr (init_of c) s oss [] []); auto.
+  - apply reach_init.
+  - constructor.
+  - intros r [].
+  - cbn [app]. rewrite <- fed_groups_env, <- fed_params_groups. apply nodupb_NoDup. exact U.
+Qed.
+
+(** * Examples *)
+(* the run of [ex_tr_mon] (a call, then in a later message a notification; both run and return): unique tokens, the
+   monitor holds, and the notification is recognised as one *)
+Example mon_barrier_nonvacuous :
+  run (init_of ex_cfg) ex_tr_mon <> None /\
+  unique_params (env_of ex_tr_mon) = true /\
+  tok_is_note [91;49;93]%N (fed_groups (env_of ex_tr_mon)) = true /\
+  tok_idx [91;49;93]%N (fed_groups (env_of ex_tr_mon)) = 1 /\
+  mon_barrier (env_of ex_tr_mon) (concat (obs_of ex_cfg ex_tr_mon)) = true.
+Proof. vm_compute. repeat split; auto. discriminate. Qed.
+
+(* a notification, then in a later message a call; both are released one after the other *)
+Definition ex_tr_barrier : list label :=
+  [LStart; LRelNext; LFeed (FMsg (InMsgs false [ex_note [91;49;93]%N])); LRelRead; LRelBarrier; LRelAcquire 0;
+   LGate [91;49;93]%N (ORes [50%N]); LRelHandled 0;
+   LFeed (FMsg (InMsgs false [ex_call [49%N] [91;93]%N])); LRelRead; LRelNext; LRelBarrier; LRelAcquire 1].
+Example mon_barrier_nonvacuous_order :
+  run (init_of ex_cfg) ex_tr_barrier <> None /\
+  unique_params (env_of ex_tr_barrier) = true /\
+  concat (obs_of ex_cfg ex_tr_barrier) = [OStart [91;49;93]%N false; OGate [91;49;93]%N false; OStart [91;93]%N false] /\
+  mon_barrier (env_of ex_tr_barrier) (concat (obs_of ex_cfg ex_tr_barrier)) = true.
+Proof. vm_compute. repeat split; auto. discriminate. Qed.
+
+(* sensitivity: the later call is entered between the entry and the return of the earlier notification; or before
+   the notification is entered at all *)
+Example mon_barrier_sensitive :
+  mon_barrier (env_of ex_tr_barrier) [OStart [91;49;93]%N false; OStart [91;93]%N false; OGate [91;49;93]%N false] = false /\
+  mon_barrier (env_of ex_tr_barrier) [OStart [91;93]%N false; OStart [91;49;93]%N false] = false.
+Proof. vm_compute. split; reflexivity. Qed.
